@@ -91,8 +91,13 @@ AUX = [
     ([("config_dmm", "m2", "dmm_0"), ("slm", ["q0"], "dmm_1"), ("declare", "g", "rydberg_global")],
      [("add", A.C52, "g"), ("add_dmm", ["C", 52, -1.5], "dmm_0")]),
     (GLp + [("declare_var", "x", "int"), ("slm", ["q2"])], [("add_v", "x", 52, "g")]),
+    # two GLOBAL channels of different type / basis (a wrong match could replay one on the other without any refusal)
+    ([("declare", "ram", "raman_global"), ("declare", "ryd", "rydberg_global")],
+     [("add", A.C52, "ram"), ("add", A.C52P, "ryd"), ("align", ("ram", "ryd"), False), ("add", A.C16, "ram")]),
+    ([("declare", "ryd", "rydberg_global"), ("declare", "ram", "raman_global")],
+     [("add", A.C52, "ram"), ("add", A.C52P, "ryd", "no-delay"), ("add", A.C16, "ram", "wait-for-all")]),
     # EOM set point next to the detuning limit: the off-detuning chosen on the NEW device must respect the new limits too
-    (GLp, [("enable_eom", "g", 2.0, -59.5, 0.0, False), ("eom_pulse", "g", 52, 0.0, 0.0, "min-delay", False), ("delay", 52, "g")]),
+    (GLp, [("enable_eom", "g", 2.0, -57.0, 0.0, False), ("eom_pulse", "g", 52, 0.0, 0.0, "min-delay", False), ("delay", 52, "g")]),
     (GLp, [("enable_eom", "g", 2.0, 59.5, 0.0, True), ("eom_pulse", "g", 52, 0.0, 0.0, "min-delay", True), ("modify_eom", "g", 1.0, 59.8, 0.0, True),
            ("eom_pulse", "g", 52, 0.0, 0.0, "min-delay", True)]),
     # the same DMM id configured twice (reusable devices), before / after the sequence became parametrized
@@ -380,6 +385,17 @@ def switch_to_mappable(seq, w, coords, pi, ops):
 
 def run(tier, seed):
     res = Result("exploration")
+    # vacuity guard: every auxiliary program must be valid on the base device (a typo would silently drop it from the plan)
+    for ai, (prefix, ops) in enumerate(AUX):
+        w = World(spec_of((), prefix))
+        try:
+            seq = w.fresh()
+            for op in ops:
+                apply(seq, op, w)
+        except Exception as e:
+            from mc.evidence import HarnessError
+
+            raise HarnessError(f"C18 auxiliary program {ai} is not valid on the base device: {type(e).__name__}: {e}")
     cs = cases(tier)
     outs = gridx.run(run_case, cs)
     classes = {}
